@@ -115,7 +115,7 @@ class P(Prop):
             "process pools and multi_proc pools with 1-3 really forked children acting in lock-step, incl. removes that "
             "are paused between the file removal and the list update while another process acts.  After every step: the "
             "result, the files that exist in the pool directory, the pool's listing.  FilePool: n files, a mode, a body "
-            "that closes some handles itself, left normally or by an exception: closed flags inside and after.  "
+            "that closes some handles itself, left normally or by an exception: closed flags inside and after; and a pool whose last path cannot be opened must not keep a descriptor of the paths before it.  "
             "Also two single-process pools alive at the same time (nested contexts, separate directories; the state of BOTH pools after every step, the model being two independent pools).  non-trivial = a multi-process history with a child create after a flush, a split remove, or a two-pool history touching both; distinct by "
             "canonical case text")
     trusted = ["the OS file system as a set of paths; NamedTemporaryFile as 'fresh name'",
@@ -218,6 +218,8 @@ class P(Prop):
         return 2000, case["ops"] + [[0, 4]]          # leaving the context = flush
 
     def canon(self, case, obs):
+        if case["kind"] == "filepool" and isinstance(obs, list) and len(obs) == 2:
+            return obs + [0]          # the model's answer: nothing may leak when a later path cannot be opened
         if case["kind"] == "twopools" and isinstance(obs, list):
             if obs and obs[0] == "two":
                 return obs[1]
@@ -350,7 +352,28 @@ class P(Prop):
                         raise KeyError("body raises")
             except KeyError:
                 pass
-            return [inside, [1 if h.closed else 0 for h in handles]]
+            # a pool whose last path cannot be opened: the with-statement raises, and no handle of the paths before it
+            # may stay open (counted as descriptors of this process that point into the scratch directory)
+            leaked = 0
+            if paths and case["mode"] in ("r", "rb"):
+                def open_here():
+                    n = 0
+                    for fd in os.listdir("/proc/self/fd"):
+                        try:
+                            if os.readlink("/proc/self/fd/" + fd).startswith(d):
+                                n += 1
+                        except OSError:
+                            pass
+                    return n
+                before = open_here()
+                bad = FilePool(paths + [os.path.join(d, "missing")], case["mode"])
+                try:
+                    with bad:
+                        pass
+                except OSError:
+                    pass
+                leaked = open_here() - before
+            return [inside, [1 if h.closed else 0 for h in handles], leaked]
         finally:
             shutil.rmtree(d, ignore_errors=True)
 
